@@ -1,38 +1,38 @@
 #!/usr/bin/env python3
-"""Generates /verif/MANIFEST.json from the claim table below."""
-import json, os, sys
+"""Generates /verif/MANIFEST.json from the checker's registry (lscheck -meta) and tools/claims.json."""
+import json, os, subprocess
 HERE = os.path.dirname(os.path.dirname(os.path.abspath(__file__)))
-
-# id -> (claimed?, one-line of what the static check decides, technique, not-decided note)
-CLAIMS = json.load(open(os.path.join(HERE, "tools", "claims.json")))
+meta = json.loads(subprocess.check_output([os.path.join(HERE, "bin", "lscheck"), "-meta"]))
+claims = json.load(open(os.path.join(HERE, "tools", "claims.json")))
+props = [json.loads(l)["id"] for l in open(os.path.join(HERE, "properties.jsonl"))]
 
 BASELINE = "cd /repo && GOPROXY=off GOFLAGS=-mod=mod go test -vet=off -count=1 ./..."
 SETUP = ("cd /verif/checker && PATH=/opt/veriftools/go1.26.8/bin:$PATH GOTOOLCHAIN=local GOFLAGS=-mod=mod "
          "GOPROXY=off GOSUMDB=off GOWORK=off go build -o /verif/bin/lscheck .")
-
 m = {
     "version": 1,
     "setup_cmd": SETUP,
     "hooks": {
         "guard": "verif",
-        "enable": "no hooks are compiled into /repo: the checks read the type-checked source and its SSA form only (go/packages + go/ssa), nothing is built with a tag",
+        "enable": "no hooks are compiled into /repo: the checks read the type-checked source and its SSA form only (go/packages + go/ssa); nothing is built with a tag",
         "baseline_off_cmd": BASELINE,
         "source_commits": [],
         "add_only": True,
     },
     "engines": [
-        {"name": "lscheck", "path": "checker/", "serves_properties": [k for k, v in CLAIMS.items() if v["claimed"]],
-         "kind_free_text": "repository-specific static analyser over go/packages + go/ssa (x/tools v0.50.0, go1.26.8): path-sensitive walk of SSA CFGs with a finite relational domain (guarded-effect decision tables), table algebra on the extracted tables, dominance / must-pass-through, who-may-call, lockset, token pairing, parser-cursor discipline, constant/table agreement"},
+        {"name": "lscheck", "path": "checker/", "serves_properties": [p for p in props if claims.get(p, {}).get("claimed")],
+         "kind_free_text": "repository-specific static analyser over go/packages + go/ssa (x/tools v0.50.0, go1.26.8): path-sensitive walk of SSA control-flow graphs with a finite relational domain (guarded-effect decision tables, configuration merging by liveness), table algebra on the extracted tables, dominance / must-pass-through on paths, who-may-call and reachability, lockset, token pairing, parser-cursor discipline, constant/table agreement"},
     ],
     "checks": [],
     "not_applicable": [],
-    "notes": "All checks are static: they load /repo's current working tree (type-checked syntax + SSA) on every run and never execute lightningstream code. Every claim is level 'other': structural necessary conditions of the property, decided exactly for all paths / all cells of a finite ordering domain; what is not decided is stated per check in level_note and in DESIGN.md §5/§7.",
+    "notes": "All checks are static: they load /repo's current working tree (type-checked syntax + SSA) on every run and never execute lightningstream code. Every claim is level 'other': structural necessary conditions of the property, decided exactly for all paths / all cells of a finite ordering domain; what is not decided is stated per check in level_note and in DESIGN.md. Known genuine defects that were not repaired are listed in known_findings.json and reported as KNOWN-FINDING lines.",
 }
-for pid in sorted(CLAIMS):
-    c = CLAIMS[pid]
-    if not c["claimed"]:
-        m["not_applicable"].append({"property_id": pid, "reason": c["reason"]})
+for pid in props:
+    c = claims.get(pid, {})
+    if not c.get("claimed") or pid not in meta:
+        m["not_applicable"].append({"property_id": pid, "reason": c.get("reason", "no static check built for this property in this round")})
         continue
+    mt = meta[pid]
     m["checks"].append({
         "property_id": pid,
         "quick_cmd": f"./bin/lscheck -p {pid} -tier quick",
@@ -40,9 +40,11 @@ for pid in sorted(CLAIMS):
         "evidence_file": f"/verif/evidence/{pid}.json",
         "replay_cmd_template": "./bin/lscheck -explain {path}",
         "engine": "lscheck",
-        "level_claimed": {"category": "other", "text": c["text"], "design_ref": f"DESIGN.md §5 {pid}"},
-        "level_note": c["note"],
-        "technique": c["technique"],
+        "level_claimed": {"category": "other",
+                          "text": mt["explanation"] + " This decides structural necessary conditions of the property for all paths and all cells, not the behaviour over histories/schedules: " + mt["not_decided"],
+                          "design_ref": f"DESIGN.md §5 {pid}"},
+        "level_note": "Trusted: go/types + go/ssa (x/tools v0.50.0), LMDB/lmdb-go, csproto, simpleblob, time/bytes semantics. Assumed: " + "; ".join(mt["assumptions"]) + ". Not decided: " + mt["not_decided"],
+        "technique": c.get("technique", "static analysis: path-sensitive SSA walk, decision tables, dominance and who-may-call rules"),
     })
 json.dump(m, open(os.path.join(HERE, "MANIFEST.json"), "w"), indent=1)
 print("checks:", len(m["checks"]), "not_applicable:", len(m["not_applicable"]))
